@@ -222,7 +222,7 @@ func (st *State) execCallValues(call *ast.CallExpr) []Outcome {
 		if fv.K == KFunc && fv.Fn != nil && fv.Fn.Sym != "" {
 			if id, ok := c.fval.(*ast.Ident); ok && st.fc.inlineDepth == 0 && st.fc.curContract != nil {
 				for _, tn := range st.fc.curContract.Traced {
-					if tn == id.Name && len(args) == 1 && args[0].K == KInt {
+					if tn == id.Name && len(args) >= 1 && args[0].K == KInt { // the trace records the first argument
 						tr, ntr := st.ghost["tr_"+tn], st.ghost["ntr_"+tn]
 						st.ghost["tr_"+tn] = vRaw(st.define("tr", "(Array Int Int)", sStore(tr.S, ntr.S, args[0].S)), "(Array Int Int)")
 						st.ghost["ntr_"+tn] = vInt(st.define("ntr", "Int", sAdd(ntr.S, "1")), intType)
@@ -233,7 +233,17 @@ func (st *State) execCallValues(call *ast.CallExpr) []Outcome {
 					}
 				}
 			}
-			return one(flattenTuple(st.applyFuncVal(fv, args))...)
+			res := flattenTuple(st.applyFuncVal(fv, args))
+			if st.fc.inlineDepth == 0 && call != st.fc.topCall {
+				// a callback nested in an expression (e.g. `if !f(k, v)`): its after-call anchor runs right here
+				if ord, ok := st.fc.callOrd[call]; ok {
+					if len(res) > 0 {
+						st.ghost["last_ret"] = res[0]
+					}
+					st.runAnchor(fmt.Sprintf("after-call%d", ord), call.End())
+				}
+			}
+			return one(res...)
 		}
 		if fv.K == KFunc && fv.Obj != nil {
 			if fn, ok := fv.Obj.(*types.Func); ok {
